@@ -27,10 +27,24 @@ func RunTLAPS(run *Run, module string, timeout time.Duration) (int, error) {
 	}
 	ctx, cancel := context.WithTimeout(context.Background(), timeout)
 	defer cancel()
-	cmd := exec.CommandContext(ctx, "tlapm", "--threads", "8", "--cleanfp", "-I", dir, module+".tla")
-	cmd.Dir = dir
-	out, err := cmd.CombinedOutput()
-	m := tlapsOK.FindSubmatch(out)
+	// The back-end provers run under wall-clock limits, so an obligation can fail on a loaded machine that
+	// is proved in seconds on an idle one: the limits are stretched, and a run with failed obligations
+	// is repeated (twice at most) with the fingerprints of what was already proved kept, so that only
+	// the failed obligations are tried again, with more time.
+	var out []byte
+	var m [][]byte
+	for attempt, stretch := 1, 3; attempt <= 3; attempt, stretch = attempt+1, stretch*3 {
+		args := []string{"--threads", "8", "--stretch", strconv.Itoa(stretch), "-I", dir, module + ".tla"}
+		if attempt == 1 {
+			args = append([]string{"--cleanfp"}, args...)
+		}
+		cmd := exec.CommandContext(ctx, "tlapm", args...)
+		cmd.Dir = dir
+		out, err = cmd.CombinedOutput()
+		if m = tlapsOK.FindSubmatch(out); m != nil || ctx.Err() != nil {
+			break
+		}
+	}
 	if m == nil {
 		return 0, fmt.Errorf("tlapm %s.tla: proofs not discharged (%v):\n%s", module, err, tail(string(out), 25))
 	}
